@@ -13,6 +13,11 @@ Definition model1 (o : dop) : list bytes :=
   else if code =? 3 then
     let r := disconnect_user (arg 0 a) (arg 1 a) (arg 2 a) (flag (arg 3 a)) in
     [[status_code (d_status r)]; [ban_code (d_ban r)]; [ban_code (d_ban r)]; [if d_closed r then 1 else 0]]
+  else if code =? 4 then
+    (* the same request while two more users are connected - one from the target's address, one from elsewhere (args
+       4 and 5: their bitmaps): a disconnect request closes its target and nobody else; obs adds [closed?] for both *)
+    let r := disconnect_user (arg 0 a) (arg 1 a) (arg 2 a) (flag (arg 3 a)) in
+    [[status_code (d_status r)]; [ban_code (d_ban r)]; [ban_code (d_ban r)]; [if d_closed r then 1 else 0]; [0]; [0]]
   else [].
 Definition model (ops : list dop) : list (list bytes) := map model1 ops.
 
@@ -31,6 +36,13 @@ Definition oracle1 (o : dop) (obs : list bytes) : bool :=
     if IsSet target ACCESS_CANNOT_BE_DISCON
     then bytes_eqb (arg 1 obs) [0] && bytes_eqb (arg 2 obs) [0] && bytes_eqb (arg 3 obs) [0]
     else true
+  else if code =? 4 then
+    (* a protected user is not disconnected by a request aimed at somebody else either, also when it shares the
+       target's address *)
+    (if IsSet (arg 1 a) ACCESS_CANNOT_BE_DISCON
+     then bytes_eqb (arg 1 obs) [0] && bytes_eqb (arg 2 obs) [0] && bytes_eqb (arg 3 obs) [0] else true) &&
+    (if IsSet (arg 4 a) ACCESS_CANNOT_BE_DISCON then bytes_eqb (arg 4 obs) [0] else true) &&
+    (if IsSet (arg 5 a) ACCESS_CANNOT_BE_DISCON then bytes_eqb (arg 5 obs) [0] else true)
   else true.
 Definition oracle (ops : list dop) (obs : list (list bytes)) : bool :=
   forallb (fun p => oracle1 (fst p) (snd p)) (combine ops obs).
